@@ -32,6 +32,12 @@ def main(tier, seed):
         if not r["states"] <= b["states"]:
             rep.add_violations([Violation("F0-stateless", "state-outside-bfs", f"DAG {d}: stateless depth-{depth} run reached states the BFS did not: {sorted(r['states'] - b['states'])[:3]}", dict(parents=d), [], family="F0")])
     rep.part("F0-stateless", depth=depth, sequences=sum(r["executions"] for r in res2))
+    res3 = pmap(lambda d: f0.grow_histories(d, 4 if tier == "quick" else 6), ds)
+    for r in res3:
+        rep.cov["evaluations"] += r["executions"]
+        rep.cov["transitions"] += r["executions"]
+        rep.add_violations(r["violations"])
+    rep.part("F0-grow", histories_with_a_grow_event=sum(r["executions"] for r in res3))
     rep.cov["bounds"] = dict(dag_nodes=3, stateless_depth=depth)
     rep.cov["rule"] += "; " + simcheck.RULE["F1"] + "; " + simcheck.RULE["F2"] + "; " + simcheck.RULE["F5"] + " (DAG-shape spaces): every logged transition legal, refused requests leave no trace, completed is final, an operator is in at most one live container"
     simcheck.run_f1(rep, "C02", tier)
@@ -42,6 +48,14 @@ def main(tier, seed):
 
 
 def replay(rec):
+    if rec.get("family") == "F0g":
+        sc = rec["scenario"]
+        p, ops = f0.replay_history(sc["parents"], [tuple(x) for x in rec["choices"]])
+        before = f0.key_of(p, ops)
+        p.new_operator([ops[j] for j in sc["grow"]] or None)
+        after = tuple(p.runtime_status().operator_states[o].value for o in ops)
+        print("history", rec["choices"], "states before grow", before[0], "after", after)
+        return 1 if after != before[0] else 0
     if rec.get("family") != "F0":
         return simcheck.replay(rec)
     sc = rec["scenario"]
